@@ -94,6 +94,98 @@ def clause_prune_after_push(prog, rep):
     rep.floor("prune-after-push", "queue pushes in the snapshot manager", n, 2)
 
 
+CMP = {"Gt": lambda a, b: a > b, "Ge": lambda a, b: a >= b, "Lt": lambda a, b: a < b, "Le": lambda a, b: a <= b,
+       "Eq": lambda a, b: a == b, "Ne": lambda a, b: a != b}
+
+
+def _offset_from_position(f, o):
+    """k if the operand is `position + k` for the index found by VecDeque position()/the target lookup (k = 0 for the index itself)"""
+    if "c" in o:
+        return None
+    l = o["p"][0]
+    seen = set()
+    k = 0
+    while l not in seen:
+        seen.add(l)
+        nxt = None
+        for bb, kind, x in f.defs().get(l, []):
+            if kind == "call" and x.name in ("position", "rposition", "binary_search_by_key", "binary_search_by"):
+                return k
+            if kind == "stmt" and x.get("k") in ("use", "ref", "cast") and x["o"] and "p" in x["o"][0]:
+                nxt = x["o"][0]["p"][0]
+            elif kind == "stmt" and x.get("k") == "binop" and x["op"].startswith("Add") and len(x["o"]) == 2:
+                a, b = x["o"]
+                if "p" in a and isinstance(b.get("c"), dict) and isinstance(b["c"].get("int"), int):
+                    k += b["c"]["int"]
+                    nxt = a["p"][0]
+            elif kind == "stmt" and x.get("k") == "use" and x["o"] and "c" in x["o"][0]:
+                return None
+        if nxt is None:
+            return None
+        l = nxt
+    return None
+
+
+def clause_release_covers_suffix(prog, rep, f, sp, rels):
+    """the rollback consumes exactly one stored snapshot (the target's); of the entries that leave the queue with it, all the others must be
+    released: the loop may pass over exactly the consumed entry — not more (`if i > 1`, `.skip(2)`: a superseded snapshot stays in storage,
+    unseen by the retention bound) and not fewer"""
+    for rl in rels:
+        if "p" not in rl.args[-1]:
+            continue
+        og = A.origins(prog, f, rl.args[-1]["p"][0], scope=None, max_frames=0)
+        cut = [c for c in sp if og.has_call(lambda x, c=c: x is c)]
+        skips = [x for x in og.calls if x.name == "skip" and len(x.args) == 2]
+        base = None          # first released position relative to the target's index, before guards
+        if cut and cut[0].name == "split_off" and len(cut[0].args) == 2:
+            base = _offset_from_position(f, cut[0].args[1])
+            for x in skips:
+                k = x.args[1].get("c", {}).get("int") if isinstance(x.args[1].get("c"), dict) else None
+                base = None if (k is None or base is None) else base + k
+        elif not cut and skips and og.has_call(lambda x: last_seg(x.self_adt) == "VecDeque" and x.name in ("iter", "iter_mut")):
+            base = _offset_from_position(f, skips[0].args[1]) if len(skips) == 1 else None
+        if base is None:
+            rep.note("C20 rollback-discards-suffix: the released range in %s is not of the recognised shapes (split_off(index [+k]) / iter().skip(index + k)); "
+                     "coverage of the suffix not decided" % f.label())
+            continue
+        # guards on the enumerate index between the loop head and the release
+        passed = set()
+        undecided = False
+        for i in range(0, 6):
+            ok_i = True
+            for w in A.control_dependent_switches(f, rl.bb):
+                t = f.term(w)
+                l = A._opl(t["discr"])
+                d = [x for bb, kind, x in f.defs().get(l, []) if kind == "stmt" and x.get("k") == "binop" and x.get("op") in CMP]
+                if not d:
+                    continue
+                a, b = d[0]["o"]
+                if not ("p" in a and isinstance(b.get("c"), dict) and isinstance(b["c"].get("int"), int)):
+                    undecided = True
+                    continue
+                og2 = A.origins(prog, f, a["p"][0], scope=None, max_frames=0)
+                if not og2.has_call(lambda x: x.name == "enumerate"):
+                    continue
+                v = 1 if CMP[d[0]["op"]](i, b["c"]["int"]) else 0
+                tg = dict((val, bb) for val, bb in t["targets"])
+                nxt = tg.get(v, t["otherwise"])
+                if rl.bb not in f.reachable_from(nxt, frozenset([w])) and nxt != rl.bb:
+                    ok_i = False
+            if not ok_i:
+                passed.add(i)
+        if undecided:
+            rep.note("C20 rollback-discards-suffix: a guard of the release in %s compares something other than the loop index with a constant; not decided" % f.label())
+            continue
+        prefix = passed == set(range(len(passed)))
+        first = base + len(passed)
+        rep.check(prefix and first == 1, "rollback-discards-suffix", f.label() + "/all-but-consumed",
+                  "the release loop passes over exactly the entry the storage rollback consumed (the target); every later entry is released",
+                  "the entries leaving the queue start at the rollback target; the release loop passes over %s and releases from offset %d on: %s"
+                  % (sorted(passed) or "nothing", first,
+                     "a snapshot taken after the target is dropped from the queue but stays in storage (outside the retention bound, re-hydrated after a restart)"
+                     if first > 1 or not prefix else "the consumed snapshot is released a second time"), rl.loc())
+
+
 def clause_rollback_releases(prog, rep):
     n = 0
     for f in mgr_fns(prog):
@@ -131,6 +223,7 @@ def clause_rollback_releases(prog, rep):
                       "each release names the split-off element's own snapshot_name",
                       "the name passed to release_group_snapshot is produced by %s, not by the element iterated out of the split-off suffix: the "
                       "superseded snapshots stay in storage" % names, rl.loc())
+        clause_release_covers_suffix(prog, rep, f, sp, rels)
         rep.check(bool(sp) and ok, "rollback-discards-suffix", f.label(),
                   "snapshots taken after the rollback target are removed from the queue and released in storage",
                   "after a rollback the later snapshots are not split off and released (they outlive the branch they belong to)", rb[0].loc())
